@@ -205,6 +205,7 @@ func (m *MACCommand) UnmarshalBinary(uplink bool, data []byte) error {
 	}
 
 	m.CID = CID(data[0])
+	m.Payload = nil
 
 	if len(data) > 1 {
 		p, _, err := GetMACPayloadAndSize(uplink, m.CID)
@@ -285,9 +286,7 @@ func (m *ChMask) UnmarshalBinary(data []byte) error {
 
 	n := binary.LittleEndian.Uint16(data)
 	for i := uint(0); i < 16; i++ {
-		if n&(1<<i) != 0 {
-			m[i] = true
-		}
+		m[i] = n&(1<<i) != 0
 	}
 
 	return nil
@@ -397,15 +396,9 @@ func (p *LinkADRAnsPayload) UnmarshalBinary(data []byte) error {
 	if len(data) != 1 {
 		return errors.New("lorawan: 1 byte of data is expected")
 	}
-	if data[0]&(1<<0) > 0 {
-		p.ChannelMaskACK = true
-	}
-	if data[0]&(1<<1) > 0 {
-		p.DataRateACK = true
-	}
-	if data[0]&(1<<2) > 0 {
-		p.PowerACK = true
-	}
+	p.ChannelMaskACK = data[0]&(1<<0) > 0
+	p.DataRateACK = data[0]&(1<<1) > 0
+	p.PowerACK = data[0]&(1<<2) > 0
 	return nil
 }
 
@@ -771,9 +764,11 @@ func (p *TXParamSetupReqPayload) UnmarshalBinary(data []byte) error {
 		return errors.New("lorawan: 1 byte of data is expected")
 	}
 
+	p.UplinkDwellTime = DwellTimeNoLimit
 	if data[0]&(1<<4) > 0 {
 		p.UplinkDwellTime = DwellTime400ms
 	}
+	p.DownlinkDwelltime = DwellTimeNoLimit
 	if data[0]&(1<<5) > 0 {
 		p.DownlinkDwelltime = DwellTime400ms
 	}
